@@ -3,6 +3,7 @@ CONSTANTS
   RegisterBeforeInit = FALSE
   Literal = {1}
   ReleaseOnRefusal = FALSE
+  OwnAtTag = TRUE
   Streaming = {}
 INIT Init
 NEXT Next
